@@ -133,7 +133,15 @@ def main(argv=None):
 
         # 3. other engines (z3 LR / regex queries) registered by the property module
         if hasattr(prop, "solver_queries"):
-            for rec in prop.solver_queries(a.tier, scratch):
+            from vf.lr import ScratchRunError
+            try:
+                solver_records = list(prop.solver_queries(a.tier, scratch))
+            except ScratchRunError as e:
+                # e.g. the working tree's grammar cannot be turned into LALR tables: the table-level lemmas of this
+                # property cannot be stated on this tree (C20 decides whether that breaks a property); nothing is claimed
+                solver_records = [{"id": f"{pid}.solver/setup", "engine": "z3", "functions": [], "result": "inconclusive", "solver_wall_s": 0.0,
+                                   "bounds": "solver queries of this property", "detail": "helper script failed on the working tree: " + str(e)[-500:]}]
+            for rec in solver_records:
                 if a.only and a.only not in rec["id"]:
                     continue
                 print(f"  [{rec.get('engine','z3'):4}] {rec['id']:60} {rec['result']:18} {rec.get('solver_wall_s', 0):6.1f}s", file=sys.stderr, flush=True)
